@@ -188,6 +188,7 @@ func (w *World) newExec(job *Job) (*Exec, error) {
 	ex.funcs = map[string]bool{}
 	ex.forkAt = map[string]int{}
 	ex.toUpperMemo = map[string]*StrV{}
+	ex.known = map[*Term]bool{}
 	ex.partLo, ex.partHi = 0, -1
 	for _, m := range w.pkg.Members {
 		if g, ok := m.(*ssa.Global); ok {
@@ -369,6 +370,7 @@ func (w *World) runJob(job *Job) (res *Result) {
 		ex.dpos, ex.nvars, ex.inputs, ex.steps, ex.cost = 0, 0, nil, 0, 0
 		ex.depth, ex.maxDepth, ex.obs, ex.labels, ex.pathExcl, ex.writes = 0, 0, nil, nil, false, nil
 		ex.toUpperMemo = map[string]*StrV{}
+		ex.known = map[*Term]bool{}
 		ex.dom = newDom()
 		pe := ex.runOnce(func() { ex.call(fn, args, nil) })
 		res.Paths++
